@@ -3,7 +3,7 @@
 
 use crate::common::*;
 use crate::props::c06::{chains, pt_for_chain};
-use crate::refm::{self, Kind};
+use crate::refm::{self, Desc, Kind};
 use crate::report::{Acc, Report, Tier};
 use crate::rx::*;
 use crate::rxalpha::mgr_std;
@@ -113,6 +113,27 @@ fn check(rep: &Report, acc: &mut Acc, it: &Item, rank: u64) {
                 if p.lt == 3 {
                     if pk != Peek::Err("ErrLabelReuse".into()) {
                         rep.violation(&format!("C19|reuse|{}|{}", p.kind.name(), tk), rank, || (format!("{}: start/complete packet with a re-use label, peek returns {:?}", it.desc, pk), wit()));
+                    }
+                    // the label a re-use packet refers to is that of the nearest preceding start/complete packet, also when
+                    // that packet was REFUSED for lack of storage: receiver history "A delivered, B refused (no storage),
+                    // storage provisioned, this packet" must never associate A with it
+                    if t.is_empty() {
+                        let stb = (p.payload.len() + 16).max(64);
+                        let mut d2 = RxS::new(2, stb, &[stb]).build(DefaultCrc {}, mgr.clone());
+                        let a = do_decap(&mut d2, &Desc::complete(L6A, 0x0800, &[0x51]).print());
+                        let b = do_decap(&mut d2, &Desc::complete(L6B, 0x0800, &[0x52]).print());
+                        let _ = d2.provision_storage(vec![0u8; stb].into_boxed_slice());
+                        let c = do_decap(&mut d2, &input);
+                        acc.transitions += 3;
+                        acc.calls += 3;
+                        acc.compared += 1;
+                        if matches!(a, DecapOut::Completed { .. }) && !matches!(b, DecapOut::Completed { .. }) {
+                            if let DecapOut::Completed { meta, .. } | DecapOut::Fragmented { meta, .. } = &c {
+                                if meta.label == L6A {
+                                    rep.violation(&format!("C19|reuse-decap|{}|stale-label-after-refused-packet", p.kind.name()), rank, || (format!("{}: after 'packet with label A delivered, packet with label B refused ({}), storage provisioned', decap associates this re-use packet with A ({})", it.desc, b.class(), c.brief()), json!({"packets": [hex(&Desc::complete(L6A, 0x0800, &[0x51]).print()), hex(&Desc::complete(L6B, 0x0800, &[0x52]).print()), hex(&input)], "receiver": {"slots": 2, "storage": stb, "buffers": 1}, "note": "the replay re-provisions every delivered buffer, so the second packet is not refused there; see the description"})));
+                                }
+                            }
+                        }
                     }
                     if it.rx_last.is_some() && dlabel != it.rx_last {
                         rep.violation(&format!("C19|reuse-decap|{}", p.kind.name()), rank, || (format!("{}: decap does not resolve the re-use label from its memory {:?}: {}", it.desc, it.rx_last.map(|l| l.short()), out.brief()), wit()));
